@@ -97,7 +97,7 @@ Proof. vm_compute. repeat split; reflexivity. Qed.
    stage's; where its text goes is [builtin_child_text].  As the code is, the text of a builtin that is the LAST stage of a
    CAPTURED pipeline is lost (finding captured-builtin-last-stage); with notes/C04-fix-6.patch (bcfix) it always follows
    the fold. *)
-Theorem C04_builtin_child : forall bcfix fail_at openable pl sh i0 o0 e0,
+Theorem C04_builtin_child_variants : forall bcfix fail_at openable pl sh i0 o0 e0,
   std_ok (tab sh) i0 o0 e0 -> is_single_builtin pl = false ->
   let r := run_pipeline v0 fail_at openable pl sh in
   res_error r = false ->
@@ -122,7 +122,24 @@ Proof.
   destruct (p_capture pl && (idx =? length (p_stages pl) - 1) && negb bcfix); [reflexivity|].
   rewrite B, C. reflexivity.
 Qed.
-(* the finding and its repair on `$(prog | alias 2> f)` *)
+(* the code as it is (/repo a7a8308: the builtin in a child prints with capture off): the text of EVERY builtin stage goes
+   where the POSIX fold says, the last stage of a captured pipeline included *)
+Theorem C04_builtin_child : forall fail_at openable pl sh i0 o0 e0,
+  std_ok (tab sh) i0 o0 e0 -> is_single_builtin pl = false ->
+  let r := run_pipeline v0 fail_at openable pl sh in
+  res_error r = false ->
+  kids_ok (fun idx st k =>
+             s_kind st = KBuiltin -> opens_ok openable st = true ->
+             let sk := posix_sinks (s_redirs st) (std_out o0 (length (p_stages pl)) (p_capture pl) idx,
+                                                  std_err e0 (length (p_stages pl)) (p_capture pl) idx) in
+             builtin_child_text true (p_capture pl) (idx =? length (p_stages pl) - 1) k = Some (Some (fst sk), Some (snd sk)))
+          0 (p_stages pl) (res_kids r).
+Proof.
+  intros fail_at openable pl sh i0 o0 e0 SO NB r NE.
+  eapply kids_ok_impl; [|apply (C04_builtin_child_variants true fail_at openable pl sh i0 o0 e0 SO NB NE)].
+  cbn beta. intros idx st k H KB OK. specialize (H KB OK). cbv zeta in H. rewrite andb_false_r in H. exact H.
+Qed.
+(* regression: before a7a8308 (bcfix = false) the text of a captured last builtin stage was lost: `$(prog | alias 2> f)` *)
 Example C04_captured_builtin_last_stage :
   let r := run_pipeline v0 nf yes (mkplan [mks FNone [] KExt []; mks FNone [mkr F2 false (TFile 5)] KBuiltin []] true) sh0 in
   map (builtin_child_text false true true) (tl (res_kids r)) = [None] /\
